@@ -491,7 +491,7 @@ def _small_inputs(nat):
 
 def _gen_model(nat, rng, n):
     for _ in range(n):
-        names = rng.sample(["A", "B", "C", "D", "E"], rng.randrange(0, 4))
+        names = rng.sample(["A", "B", "C", "D", "E", "|||START|||"], rng.randrange(0, 4))
         yield _materialise(nat, {"events": [_rand_event_desc(rng, nm) for nm in names], "_model": True})
 
 
@@ -570,7 +570,7 @@ def _model_file_case(nat, desc):
 
 def _gen_save_file(nat, rng, n):
     for _ in range(n):
-        names = rng.sample(["A", "B", "C", "D", "E"], rng.randrange(0, 4))
+        names = rng.sample(["A", "B", "C", "D", "E", "|||START|||"], rng.randrange(0, 4))
         yield _model_file_case(nat, {"model_file": "save", "events": [_rand_event_desc(rng, nm) for nm in names],
                                      "existing": {"models/old_model.json": [_rand_event_desc(rng, "Z")], "models/other.json": []},
                                      "path": rng.choice(["models/new_model.json", "models/old_model.json", "missing_dir/m.json"])})
